@@ -32,8 +32,10 @@ R.opaque(IOL + "normalize_for_identity", "norm_id")
 VOLATILE = "k != 'ms' and k != 'now' and k != 'durations_ms' and k != 'yielded' and k != 'slice_idx'"
 UNCH = "(k in result) == (k in rec) and implies(k in rec, result[k] == rec[k])"
 
+# also registered for C01: the wall-clock clause of contracts/f_determinism.py relies on "every masked timing field is
+# zeroed / dropped for *every* record of an identity stream" (clauses ms-zeroed, now-dropped, durations-zeroed-keys-kept)
 R.contract(
-    IOL + "normalize_for_identity", "C16", callee=False,
+    IOL + "normalize_for_identity", ["C16", "C01"], callee=False,
     types={"name": "str", "rec": REC},
     ensures=[
         ("ci-off-same-object", "implies(not ci_on(), same_obj(result, rec))"),
